@@ -1,22 +1,23 @@
-SPECIFICATION Spec
+SPECIFICATION SimSpec
 CONSTANTS
     Ids <- MCIds
     Workers <- MCWorkers
     WorkerMaps <- MCWorkerMaps
-    CfgSpace <- MCCfgQuick
-    MaxClock = 4
-    MaxApi = 3
-    MaxLast = 1
+    CfgSpace <- MCCfgThorough
+    MaxClock = 100000
+    MaxApi = 100000
+    MaxLast = 4
     TrackRan = FALSE
+    TargetLen = 36
+    Back = 3
+    MaxStep = 4
 INVARIANTS
-    TypeOK
+    Emit
     InOrderExactlyOnce
     NotEarly
     NoneAfterRelease
     NoConcurrentSameId
     CheckpointMonotone
-    UniquePerId
-    IndexConsistent
     QueueMatchesRef
-    NeverStranded
+CONSTRAINT Bound
 CHECK_DEADLOCK FALSE
